@@ -262,6 +262,75 @@ variant("size-helper-correct",
 
 			opts.Size = size"""),
   ("conn.go", "func (c *Conn) Server() *Server {", "func parseSizeParam(value string) (int64, error) {\n	size, err := strconv.ParseUint(value, 10, 32)\n	if err != nil {\n		return 0, err\n	}\n	return int64(size), nil\n}\n\nfunc (c *Conn) Server() *Server {"))
+variant("data-step-helper",
+  ("data.go", """		switch r.state {
+		case stateBeginLine:
+			if c == '.' {
+				r.state = stateDot
+				continue
+			}
+			if c == '\\r' {
+				r.state = stateCR
+				break
+			}
+			r.state = stateData
+		case stateDot:""", """		if r.state == stateBeginLine {
+			if r.beginLine(c) {
+				continue
+			}
+			b[n] = c
+			n++
+			continue
+		}
+		switch r.state {
+		case stateDot:"""),
+  ("data.go", "func (r *dataReader) Read(b []byte) (n int, err error) {", "// beginLine handles an octet at the beginning of a line; it reports whether the octet is swallowed.\nfunc (r *dataReader) beginLine(c byte) bool {\n	if c == '.' {\n		r.state = 1\n		return true\n	}\n	if c == '\\r' {\n		r.state = 3\n		return false\n	}\n	r.state = 4\n	return false\n}\n\nfunc (r *dataReader) Read(b []byte) (n int, err error) {"))
+variant("close-defer-unlock",
+  ("server.go", """	var err error
+	s.locker.Lock()
+	for _, l := range s.listeners {
+		if lerr := l.Close(); lerr != nil && err == nil {
+			err = lerr
+		}
+	}
+
+	for conn := range s.conns {
+		conn.Close()
+	}
+	s.locker.Unlock()
+
+	return err""", """	var err error
+	s.locker.Lock()
+	defer s.locker.Unlock()
+	for _, l := range s.listeners {
+		lerr := l.Close()
+		if lerr == nil || err != nil {
+			continue
+		}
+		err = lerr
+	}
+
+	for conn := range s.conns {
+		conn.Close()
+	}
+
+	return err"""))
+variant("short-chunk-switch",
+  ("conn.go", """	if err == nil && n != int64(size) {
+		// The connection was closed in the middle of the chunk, the
+		// message is incomplete.
+		err = io.ErrUnexpectedEOF
+	}
+	if err != nil {""", """	short := n != int64(size)
+	if short && err == nil {
+		err = io.ErrUnexpectedEOF
+	}
+	if err != nil {"""))
+if sys.argv[1:] == ['--export']:
+    out = [{"id": "benign-" + n, "edits": [{"file": f, "old": o, "new": w} for f, o, w in V[n]]} for n in V]
+    json.dump(out, open('/verif/liveness/benign.json', 'w'), indent=1)
+    print(len(out), 'variants exported')
+    sys.exit(0)
 names = sys.argv[1:] or list(V)
 env = dict(os.environ, GOFLAGS='-mod=mod', GOPROXY='off', GOSUMDB='off', GOTOOLCHAIN='local')
 for name in names:
